@@ -209,6 +209,31 @@ pub fn run(ctx: &Ctx) {
         v
     }, check_exact);
 
+    ctx.listed("related_argument_sequences", "on one thread inside one case: e(P,Q), e(P,-Q), e(P,Q), e(-P,Q), e(-P,-Q), e(P,[2]Q), e(P,Q) in other Jacobian representations — each compared with the reference; a result remembered from an earlier call must not be served for a different argument", || {
+        let n = &pr.n;
+        let one = gen::hex32(&BigUint::one());
+        let zero = gen::hex32(&BigUint::zero());
+        let mut v: Vec<Vec<PairCase>> = Vec::new();
+        for i in 0..3u64 {
+            let a = from_be(&expand_bytes(i ^ 0x5e91, 32)) % (n - 1u32) + 1u32;
+            let b = from_be(&expand_bytes(i ^ 0x5e92, 32)) % (n - 1u32) + 1u32;
+            let pc = |a: &BigUint, b: &BigUint, jac: bool| PairCase { a: gen::hex32(a), b: gen::hex32(b), zp: if jac { Hex(expand_bytes(i ^ 0x5e93, 32)) } else { one.clone() }, zq0: if jac { Hex(expand_bytes(i ^ 0x5e94, 32)) } else { one.clone() }, zq1: if jac { Hex(expand_bytes(i ^ 0x5e95, 32)) } else { zero.clone() } };
+            v.push(vec![pc(&a, &b, false), pc(&(n - &a), &b, false), pc(&a, &b, false), pc(&a, &(n - &b), false), pc(&(n - &a), &(n - &b), true), pc(&((&a * 2u32) % n), &b, false), pc(&a, &b, true), pc(&(n - &a), &b, true)]);
+        }
+        v
+    }, |steps: &Vec<PairCase>| seq(steps, check_exact));
+
+    ctx.cold("cold_start_pairing", "one pairing as the first library operation of a fresh process (exact 384-byte value)", || {
+        let one = gen::hex32(&BigUint::one());
+        let zero = gen::hex32(&BigUint::zero());
+        vec![
+            PairCase { a: one.clone(), b: one.clone(), zp: one.clone(), zq0: one.clone(), zq1: zero.clone() },
+            PairCase { a: Hex(expand_bytes(0xc12d, 32)), b: Hex(expand_bytes(0xc12e, 32)), zp: one.clone(), zq0: one.clone(), zq1: zero.clone() },
+            PairCase { a: Hex(expand_bytes(0xc12f, 32)), b: Hex(expand_bytes(0xc130, 32)), zp: Hex(expand_bytes(0xc131, 32)), zq0: Hex(expand_bytes(0xc132, 32)), zq1: Hex(expand_bytes(0xc133, 32)) },
+        ]
+    }, check_exact);
+    ctx.cold("cold_start_bilinearity", "the in-library bilinearity identity as the first library operations of a fresh process", || vec![Bilin { a: Hex(expand_bytes(0xc134, 32)), b: Hex(expand_bytes(0xc135, 32)) }], check_bilinear);
+
     ctx.listed("exact_edge_g1_points", "P a boundary point of G1 (x next to 0, N, p, 2^256-p, powers of two; Montgomery x with all-ones / zero limbs; y with a leading zero byte), affine and Jacobian, against Q = [a]P2", || {
         let mut v = Vec::new();
         for point in 0..g1_edge_points().len() {
